@@ -423,6 +423,13 @@ mut("c04-merge-swapped", "C04", "location.go", "partial := Partial{v.Partial.Par
 # PURE per operation
 mut("c02-pure-insert-in-place", "C02", "sequence.go", "\tr := make([]byte, 0, len(p)+len(q))\n\tr = append(r, p[:pos]...)\n", "\tr := p[:pos]\n", ["PURE|gts.insert"])
 
+
+# PUSH-POP
+mut("c07-pushpop-ambiguous-leak", "C07", "location.go", "\tif c != '.' {\n\t\terr := pars.NewError(\"expected `.`\", state.Position())\n\t\tstate.Pop()\n\t\treturn err\n\t}", "\tif c != '.' {\n\t\terr := pars.NewError(\"expected `.`\", state.Position())\n\t\treturn err\n\t}", ["PUSH-POP|gts.parseAmbiguous|frames"])
+mut("c07-pushpop-join-reverted", "C07", "location.go", "\tif err := multipleLocationParser(state, result); err != nil {\n\t\tstate.Pop()\n\t\treturn err\n\t}\n\tc, err := pars.Next(state)\n\tif err != nil {\n\t\tstate.Pop()\n\t\treturn err\n\t}\n\tif c != ')' {\n\t\terr := pars.NewError(\"expected `)`\", state.Position())\n\t\tstate.Pop()\n\t\treturn err\n\t}\n\tstate.Advance()\n\tresult.SetValue(Join(", "\tif err := multipleLocationParser(state, result); err != nil {\n\t\treturn err\n\t}\n\tc, err := pars.Next(state)\n\tif err != nil {\n\t\tstate.Pop()\n\t\treturn err\n\t}\n\tif c != ')' {\n\t\terr := pars.NewError(\"expected `)`\", state.Position())\n\t\tstate.Pop()\n\t\treturn err\n\t}\n\tstate.Advance()\n\tresult.SetValue(Join(", ["PUSH-POP|gts.parseJoin|frames"], note="the repaired defect, reintroduced")
+mut("c07-pushpop-double-drop", "C07", "location.go", "\tresult.SetValue(Ambiguous{start, end})\n\tstate.Drop()\n", "\tresult.SetValue(Ambiguous{start, end})\n\tstate.Drop()\n\tstate.Drop()\n", ["PUSH-POP|gts.parseAmbiguous|frames"])
+mut("c07-pushpop-silent-defer-free", "C07", "location.go", "\tif start+1 != end {\n\t\tstate.Pop()\n\t\treturn fmt.Errorf(", "\tif end != start+1 {\n\t\tstate.Pop()\n\t\treturn fmt.Errorf(", silent=True)
+
 if __name__ == "__main__":
     here = os.path.dirname(os.path.abspath(__file__))
     ids = [m["id"] for m in M]
